@@ -12,13 +12,14 @@ RULE = ('cases = every set of 1..4 (thorough 5) ranges with (marker, start) draw
         'built through Multi_Range_Potential_Form / create_Multi_Range_Potential_Form and through potable text (first range '
         'optionally unmarked) and evaluated (value, deriv, deriv2) at r in {-1,0,.5,..,3.5} + nextafter(start, +-inf) in ascending, '
         'descending and interleaved order on the same object; non-trivial = set with >= 2 ranges')
+RULE += '; 9 constructions per listing order: class, factory, default_value=25 (also with one zero() range), public range_defns setter after other ranges, ranges without analytic derivatives, ranges offering .deriv only (deriv2 offered iff some range offers it), Multi_Range_Defn instances shared with two other potentials, potable text (marked / first range unmarked); sets that repeat a definition; 9, 10, 12 and 14 ranges in five structured orders'
 ASSUMPTIONS = [
     'two ranges with identical marker AND start are outside the alphabet (the statement cannot be satisfied for them)',
     'for r strictly above a start shared by a ">=" and a ">" range the statement does not say which is used: either is accepted, '
     'but value, deriv and deriv2 must come from the same range and not depend on the listing or evaluation order',
     'quadratics with pairwise distinct value, slope and curvature identify the selected range from the observed numbers',
 ]
-BOUNDS = {'quick': 'sets of <= 4 ranges: 162 sets, 2080 ordered lists, x 3 constructions x 3 evaluation orders',
+BOUNDS = {'quick': 'sets of <= 4 ranges: 162 sets, 2080 ordered lists, x 9 constructions x 3 evaluation orders; 4 sets with repeated definitions; 12 sets of 9-14 ranges',
           'thorough': 'sets of <= 6 ranges (all listing orders, 720 per 6-set); <= 4 ranges incl. start -inf through the API; 9-14 ranges in 5 structured orders'}
 
 STARTS = [0.0, 1.0, 2.0, 3.0]
